@@ -191,6 +191,56 @@ Theorem C07_sort_then_bsearch : forall c a k a' r rel ws,
 Proof. exact sort_then_bsearch. Qed.
 Print Assumptions C07_sort_then_bsearch.
 
+(* ---- the comparator contract of bsearch: (key, member), two-sorted ---- *)
+
+(* The search comparator is cmp : K -> elt -> comparison for an ARBITRARY key type K: its first
+   argument is the key, its second an array member.  For every such comparator and every member
+   order [le] compatible with it: what is returned is a member the comparator calls equal to the
+   key (sorted array or not), and on an array ordered by [le] NULL is returned only if no member
+   compares equal. *)
+Theorem C07_bsearch_two_sorted : forall (K : Type) (cmp : K -> elt -> comparison) (le : elt -> elt -> Prop),
+  (forall k x y, cmp k x = Lt -> le x y -> cmp k y = Lt) ->
+  (forall k x y, cmp k x = Gt -> le y x -> cmp k y = Gt) ->
+  forall a k,
+  Inv a ->
+  exists r, al_bsearch_km cmp a k = Some r /\
+            (forall x, r = Some x -> In x (al_abs a) /\ cmp k x = Eq) /\
+            (StronglySorted le (al_abs a) -> r = None -> forall y, In y (al_abs a) -> cmp k y <> Eq).
+Proof. exact @bsearch_km_spec. Qed.
+Print Assumptions C07_bsearch_two_sorted.
+
+(* the key-vs-member comparators of the drivers are compatible with the orders sorted by *)
+Theorem C07_cmp_km_compatible : forall c (k : key) x y,
+  (cmp_km c k x = Lt -> le_by c x y -> cmp_km c k y = Lt) /\
+  (cmp_km c k x = Gt -> le_by c y x -> cmp_km c k y = Gt).
+Proof. intros c k x y. split; [apply cmpby_compat_lt|apply cmpby_compat_gt]. Qed.
+Print Assumptions C07_cmp_km_compatible.
+
+(* heterogeneous search, key = a bare id: the member found has the key's id; NULL iff absent *)
+Theorem C07_bsearch_int_key : forall c a (k : key),
+  Inv a ->
+  exists r, al_bsearch_km (cmp_km c) a k = Some r /\
+            (forall x, r = Some x -> x = Some k /\ In (Some k) (al_abs a)) /\
+            (StronglySorted (le_by c) (al_abs a) -> (r = None <-> ~ In (Some k) (al_abs a))).
+Proof. exact bsearch_int_key_spec. Qed.
+Print Assumptions C07_bsearch_int_key.
+
+Theorem C07_sort_then_bsearch_int_key : forall c a (k : key) a' r rel ws,
+  Inv a -> al_sort c a = AOk a' r rel ws ->
+  exists res, al_bsearch_km (cmp_km c) a' k = Some res /\
+              (forall x, res = Some x -> x = Some k) /\ (res = None <-> ~ In (Some k) (al_abs a)).
+Proof. exact sort_then_bsearch_int_key. Qed.
+Print Assumptions C07_sort_then_bsearch_int_key.
+
+Theorem C07_sort_after_any_history_int_key : forall al n ops a0 c (k : key),
+  al_new2 al n = NOk a0 -> Forall op_wf ops ->
+  exists q oks rs q' ws res,
+    al_run al a0 ops = Some (q, oks, rs) /\ al_sort c q = AOk q' 0 [] ws /\
+    al_bsearch_km (cmp_km c) q' k = Some res /\
+    (forall x, res = Some x -> x = Some k) /\ (res = None <-> ~ In (Some k) (al_abs q)).
+Proof. exact sort_after_any_history_int_key. Qed.
+Print Assumptions C07_sort_after_any_history_int_key.
+
 (* ---- sort / search after ANY history: sorting has no hidden state ---- *)
 
 (* an element's value changed in place (json_object_set_int64 on an element and the like) is a
@@ -270,3 +320,18 @@ Theorem C07_resort_nonvacuous :
     al_bsearch Desc q (Some 9) = Some true /\ al_bsearch Desc q (Some 1) = Some false.
 Proof. exact resort_nontrivial. Qed.
 Print Assumptions C07_resort_nonvacuous.
+
+(* non-vacuity of the two-sorted search: a bare id searched among members with a NULL gap and a
+   duplicate; the last line shows that the roles / the order matter (the other comparator on the
+   same array misses a present id) *)
+Theorem C07_int_key_search_nonvacuous :
+  exists q oks rs,
+    al_run (fun _ => true) (mkal [] 0 0)
+      [OAdd (Some 40); OAdd (Some 7); OAdd None; OAdd (Some 19); OAdd (Some 7); OSort Asc] = Some (q, oks, rs) /\
+    al_abs q = [None; Some 7; Some 7; Some 19; Some 40] /\
+    al_bsearch_km (cmp_km Asc) q 19 = Some (Some (Some 19)) /\
+    al_bsearch_km (cmp_km Asc) q 7 = Some (Some (Some 7)) /\
+    al_bsearch_km (cmp_km Asc) q 20 = Some None /\
+    al_bsearch_km (cmp_km Desc) q 40 = Some None.
+Proof. exact int_key_search_nontrivial. Qed.
+Print Assumptions C07_int_key_search_nonvacuous.
